@@ -3,7 +3,7 @@ import asyncio
 
 from .. import chancorr, chansim, memwire, sshutil
 
-IMPORTS = 'From AV Require Import Base.Prelude Model.Channel Corr.C07Corr.'
+IMPORTS = 'From AV Require Import Base.Prelude Model.Channel Model.MultiChannel Corr.C07Corr.'
 
 
 async def e2e_case(ctx, rng, k):
@@ -170,6 +170,7 @@ def run(ctx):
     ctx.prove()
     n = 1500 if ctx.tier == 'thorough' else 220
     chancorr.run_cases(ctx, 'C07', n, 0.0, IMPORTS, 'chk_channel')
+    chancorr.run_multi_cases(ctx, 500 if ctx.tier == 'thorough' else 80, IMPORTS)
     ne = 400 if ctx.tier == 'thorough' else 50
     for k in range(ne):
         sshutil.run(e2e_case(ctx, ctx.rng, k), timeout=300)
